@@ -602,6 +602,9 @@ func writeEvidence(root, prop, tier string, seed int64, spec *Spec, results []*H
 	evDir := filepath.Join(root, "evidence")
 	if v := os.Getenv("VERIF_EVIDENCE_DIR"); v != "" { // seeded-change trials keep the committed evidence untouched
 		evDir = v
+	} else if os.Getenv("VERIF_ONLY") != "" {
+		// a run restricted to some harnesses (development) is not the check's evidence
+		evDir = filepath.Join(root, ".work", "evidence-partial")
 	}
 	os.MkdirAll(evDir, 0o755)
 	writeJSON(filepath.Join(evDir, prop+".json"), ev)
